@@ -675,5 +675,6 @@ func (s *Store) CloseWithExitCode(ctx context.Context, exitCode uint32) error {
 	s.nameToModule = nil
 	s.nameToModuleCap = 0
 	s.typeIDs = nil
+	verifStoreClose(s)
 	return errors.Join(errs...)
 }
